@@ -74,6 +74,13 @@ def scenarios(tier, seed=0):
         for end in ("2003/01/01", "2003/04/30", "2003/05/01", "2003/05/02", "2003/06/15"):
             for ext in ((30, 365) if q else (1, 30, 365, 730)):
                 yield {"kind": "extend", "name": name, "ext": ext, "end": end}
+    # an end date between the last season's maturity and its latest harvest date (maturity + 30 days)
+    for name in (["Maize", "Wheat"] if q else [n for n in allnames if not n.endswith("GDD")][::3]):
+        Lc = A.crop_length_days({"name": name, "scale": None, "kw": {}})
+        for after in (0, 1, 10, 29, 30):
+            end = A._d("2002/05/01") + dt.timedelta(days=Lc + after)
+            for ext in ((1, 365) if q else (1, 30, 365)):
+                yield {"kind": "extend", "name": name, "ext": ext, "end": A._f(end)}
     # very long extensions (46 further years; the shorter run is under, the longer over 2^14 days): anything sized or typed by the length
     # of the window
     for name in (["Maize"] if q else ["Maize", "Wheat", "PotatoGDD"]):
@@ -216,7 +223,7 @@ def run(scn):
             L = A.crop_length_days(spec["crop"])
             s0, e0 = A._d(spec["start"]), A._d(spec["end"])
             mm, dd = (int(x) for x in spec["crop"]["planting"].split("/"))
-            expected = [p0 for p0 in (dt.datetime(y, mm, dd) for y in range(s0.year, e0.year + 1)) if p0 >= s0 and p0 + dt.timedelta(days=L + 31) <= e0]
+            expected = [p0 for p0 in (dt.datetime(y, mm, dd) for y in range(s0.year, e0.year + 1)) if p0 >= s0 and p0 + dt.timedelta(days=L) <= e0]   # matured inside the window (all L in-season days simulated)
             for p0 in expected:
                 r0 = (p0 - s0).days
                 hit("season_expected_from_the_configuration")
